@@ -1,0 +1,21 @@
+"""
+Verification hooks: off unless IBL_NEUROPIXEL_VERIF=1 and IBL_NEUROPIXEL_VERIF_TRACE names a directory.
+When on, `emit` appends one JSON line per event to <dir>/<pid>.ndjson with a per-process sequence number.
+"""
+import json
+import os
+
+ON = os.environ.get("IBL_NEUROPIXEL_VERIF") == "1" and bool(os.environ.get("IBL_NEUROPIXEL_VERIF_TRACE"))
+_seq = 0
+
+
+def emit(ev, **fields):
+    global _seq
+    if not ON:
+        return
+    _seq += 1
+    rec = {"ev": ev, "pid": os.getpid(), "seq": _seq}
+    rec.update(fields)
+    path = os.path.join(os.environ["IBL_NEUROPIXEL_VERIF_TRACE"], f"{os.getpid()}.ndjson")
+    with open(path, "a") as fid:
+        fid.write(json.dumps(rec) + "\n")
